@@ -170,6 +170,7 @@ func ToChannel[T any](size int) func(Observable[T]) Observable[<-chan Notificati
 			// Because the observer might call be long-running.
 			// But on empty source, the destination.CompleteWithContext() might be
 			// called before the goroutine is started.
+			verifToChannelPark()
 			destination.NextWithContext(context.TODO(), ch)
 
 			return func() {
